@@ -17,7 +17,13 @@ MANIFEST = {
              "given through --options (K-C04-c) are excluded and recorded as known findings. Correspondence: ALL update histories of "
              "length <=2/3 over 21 event kinds + random to 12 vs RuntimeState.update/to_dict, option-string parsing, and end-to-end "
              "doctests whose TRACE is predicted by the three-line specification (exhaustive event sequences <=2, random to 12) in six "
-             "statement shapes, with and without --options defaults; directive-looking text inside string literals included."),
+             "statement shapes (twelve now, incl. several decorators and empty lines inside a statement), with and without --options defaults; "
+             "directive-looking text inside string literals included. The clause 'directive-looking text inside string literals is not a directive' is also "
+             "PROVED for the mini-lexer model, for all strings: `string_literal_is_not_comment` / `triple_literal_is_not_comment` (the scan of `pre 'body' post` "
+             "equals the scan of `post` at the depth reached after `pre`: a # inside a closed literal never starts the comment), `comment_is_suffix`, "
+             "`no_directive_in_string_literal`, `directives_ignore_literal_anywhere` (in any multi-line context whose earlier lines leave no string open, "
+             "extractDirectives does not depend on the body of a closed literal), `multiline_string_is_not_comment`; the necessary hypotheses (closed literal, "
+             "Python's triple-quote rule, no string left open) each have a kernel-checked counterexample that the real extract_comments reproduces."),
     'note': ("Trusted: as C02; requirement evaluation (platform, argv, environment, module existence) is an oracle `sat`; comment "
              "extraction (tokenizer) is taken from the real code here and modelled under C13; ASCII-only case folding of directive names."),
     'technique': 'Lean 4 proof (induction over directive/effect lists) + exhaustive small-scope and random differential correspondence',
